@@ -183,6 +183,8 @@ struct Gen<'a> {
 	exact32: bool,
 	/// bulk column: small values, counts 4..5
 	bulk: bool,
+	/// clustered keys share 18 bits instead of 16: the index grows several times in a row
+	share18: bool,
 }
 
 impl<'a> Gen<'a> {
@@ -241,6 +243,9 @@ impl<'a> Gen<'a> {
 		}
 		if let Some(c) = cluster {
 			k[0..2].copy_from_slice(&c.to_be_bytes());
+			if self.share18 {
+				k[2] &= 0x3f;
+			}
 		}
 		k
 	}
@@ -553,12 +558,13 @@ pub fn run(seeds: &[u64], thorough: bool, root: &Path, t: &mut Trace, ctr: &mut 
 fn gen_case(seed: u64, rng: &mut Rng) -> Case {
 	let scenario = match rng.below(24) {
 		0..=3 => "grown",
-		4..=7 => "pending",
+		4..=5 => "pending",
+		6..=7 => "partial", // several older index tables queued, the reindex started but not finished
 		8..=9 => "badplan",
 		10 => "bulk", // more than COMMIT_SIZE Sets: several raw commits
 		_ => "plain",
 	};
-	let adversarial = scenario == "grown" || scenario == "pending";
+	let adversarial = scenario == "grown" || scenario == "pending" || scenario == "partial";
 	let nhash = rng.range(1, 3) as usize;
 	let with_btree = rng.chance(1, 3);
 	let mut src = vec![];
@@ -680,7 +686,7 @@ fn run_case(seed: u64, thorough: bool, root: &Path, t: &mut Trace, ctr: &mut Cou
 	ctr.inc(&format!("scenario.{}", case.scenario));
 	ctr.inc(&format!("overwrite.{}", case.overwrite as u8));
 	ctr.inc(&format!("columns.{}", case.src.len()));
-	let adversarial = case.scenario == "grown" || case.scenario == "pending";
+	let adversarial = case.scenario == "grown" || case.scenario == "pending" || case.scenario == "partial";
 	let src_dir: PathBuf = fresh_dir(root, &format!("c20-{}-src", seed));
 	let dst_dir: PathBuf = fresh_dir(root, &format!("c20-{}-dst", seed));
 
@@ -692,10 +698,13 @@ fn run_case(seed: u64, thorough: bool, root: &Path, t: &mut Trace, ctr: &mut Cou
 	};
 	let mut data: Vec<ColData> = vec![];
 	{
-		let mut g = Gen { rng: &mut rng, vals: &mut vals, tok_seed: 0, big_left: if thorough { 4 } else { 2 }, exact32: adversarial, bulk: false };
+		let mut g = Gen { rng: &mut rng, vals: &mut vals, tok_seed: 0, big_left: if thorough { 4 } else { 2 }, exact32: adversarial, bulk: false, share18: case.scenario == "partial" };
 		for (i, c) in case.src.iter().enumerate() {
 			let (n, cluster) = if c.btree {
 				(g.rng.range(5, 30), None)
+			} else if case.scenario == "partial" && i == 0 {
+				// 129+ keys sharing 18 bits: the index grows (at least) twice in a row
+				(g.rng.range(130, 200), Some(g.rng.below(65536) as u16))
 			} else if adversarial && i == 0 {
 				(g.rng.range(65, 140), Some(g.rng.below(65536) as u16))
 			} else if case.scenario == "bulk" && i == 0 {
@@ -730,6 +739,16 @@ fn run_case(seed: u64, thorough: bool, root: &Path, t: &mut Trace, ctr: &mut Cou
 			if adversarial {
 				drain(&db).expect("drain");
 			}
+		}
+		if case.scenario == "partial" {
+			// one or two reindex batches: entries of the OLDEST queued table are moved into the
+			// current one (and the table possibly dropped) while younger old tables are still queued
+			let n = rng.range(1, 2);
+			for _ in 0..n {
+				db.process_reindex().expect("reindex");
+				drain(&db).expect("drain");
+			}
+			ctr.inc(&format!("partial.reindex_batches.{}", n));
 		}
 		if case.scenario == "grown" {
 			for _ in 0..400 {
